@@ -63,6 +63,56 @@ CHECKS = {
          "pairs (fresh and used readers), 5 containers, plus seeded hostile-Unicode / long-line / large logs.",
          "text equality checked on a sample as code-point sequences, elsewhere by injective record ids. " + TRUST,
          "DESIGN.md section 4, C17"),
+ "C09": ("TLA+ contract ReachWithin/path validity (SessionScanContract) and design model of the level-wise session search over ALL "
+         "session graphs (SessionScan.tla) model-checked by TLC; TLC validates traces of the real SessionsScanner run over the real "
+         "ECU client, tcp-lines transport and virtual-ECU server loop against scripted session graphs; simulated design "
+         "behaviours replayed",
+         "Exhaustive model checking over all 64 ISO three-session graphs x depth 1..4 x all skips x thorough on/off (thorough: "
+         "4-session graphs, 5-session shape families); every real scan (64 graphs x depths + seeded 4-6 session draws, two ECU "
+         "realisations) validated by TLC against the contract (probe order free).",
+         "assumes ISO 14229-1: the default session can be entered from every session; graphs outside are reported, not judged; "
+         "the default session is exempt from the skip clause (S16 judged outside the statement). " + TRUST,
+         "DESIGN.md section 4, C09"),
+ "C12": ("TLA+ model of client state tracker || replaying server tracker || row cursor (DbReplay.tla, update rules in DbReplayRules) "
+         "model-checked by TLC over all histories up to length 3/4; TLC validates record-then-replay transcripts of the real ECU + "
+         "DBHandler + DBUDSServer; every TLC behaviour replayed into the code",
+         "Exhaustive over abstract histories of length <= 3 (thorough 4) x reply classes; every such behaviour and seeded random "
+         "histories recorded against RandomUDSServer and replayed from databases with extra runs/ECUs/property sets; TLC compares "
+         "per step <<request, recorded reply, replayed reply, client state, server state>>.",
+         "security seeds of the recording ECU are made reproducible by a seeded subclass; the ecu table is linked by direct SQL. " + TRUST,
+         "DESIGN.md section 4, C12"),
+ "C15": ("TLA+ model of the run lifecycle (RunLifecycle.tla: lock, artifacts, log, hooks, db, setup/main/teardown, META, exit) with "
+         "the documented exit-code mapping as contract; TLC enumerates kind x resources x failure point x exit kind and the "
+         "expected final state; each case executed against the real entry_point (in-process and subprocess with real SIGINT) "
+         "and the observed final state validated by TLC",
+         "All 1696 lifecycle cases model-checked; quick executes ~680 of them (33 in subprocesses, 23 with real SIGINT), thorough "
+         "~2070 incl. all SIGINT cases; every observation is judged by TLC clause by clause (X1..X6).",
+         "Ctrl-C inside the finally block / hooks / DB open is not injected; test commands are subclasses defined in the harness. " + TRUST,
+         "DESIGN.md section 4, C15"),
+ "C16": ("TLA+ model of the random ECU generator over all coin-flip outcomes (VEcuModel.tla) with well-formedness invariants; TLC "
+         "validates model dumps and request transcripts produced by separate interpreter processes (different PYTHONHASHSEED, "
+         "import order, clock, global RNG state) for equal (seed, arguments)",
+         "Generator design model-checked exhaustively for 3-4 candidate sessions (graph set equals the real generator's under a "
+         "scripted RNG); 60 (thorough 1500) process runs x fixed request history validated by TLC: well-formedness per dump, "
+         "byte equality per pair except RequestSeed seeds.",
+         "part (b) is transcript equality with one exception; TLC's share there is thin and stated as such. " + TRUST,
+         "DESIGN.md section 4, C16"),
+ "C18": ("TLA+ model of option resolution CLI > env > file > default with validity (ConfigPrecedence.tla) as contract and design; "
+         "TLC enumerates presence x validity x field-class cases and their expected outcome; every case instantiated on every "
+         "option of every command through the real parser, outcomes validated by TLC; reload identity and template keys likewise",
+         "1242 abstract cases x 817 option instances of 34 commands (quick: all presence patterns on every option, validity "
+         "patterns rotated; thorough: everything x 3 value variants), stored-config reload via dump, META.json + Rerunner and a "
+         "run_meta row, --template keys fed back.",
+         "which options are env/file-configurable is read from the class sources via ast, independent of pydantic's model_fields; "
+         "positional options: precedence vacuous (S30 unspecified). " + TRUST,
+         "DESIGN.md section 4, C18"),
+ "C20": ("TLA+ denotational semantics of range expressions and the URI build/parse identity contract (RangeExprContract, "
+         "TargetUriContract) with design layers; TLC enumerates ASTs / URI part combinations and is the batch oracle for the real "
+         "unravel/unravel_2d/Ranges/Ranges2D/TargetURI/split_host_port/transport Config results",
+         "All 1-D ASTs of <= 3 items over 0..6 (thorough) and 2-D forms, several spellings each; host classes x ports x parameter "
+         "subsets x integer notations for DoIP/HSFZ/ISO-TP incl. the shapes the discovery scanners emit; thorough: ports 0..65535.",
+         "enumeration + independent denotation (DESIGN 1.4): TLC adds independence and exhaustive case generation. " + TRUST,
+         "DESIGN.md section 4, C20"),
 }
 PENDING = {}
 
